@@ -12,6 +12,7 @@ import AquaDrv.C23Ops
 import AquaDrv.C18Ops
 import AquaDrv.C16Ops
 import AquaDrv.C10Ops
+import AquaDrv.C28Ops
 /-! Line-protocol driver of the model: one JSON request per line on stdin, one JSON answer per line. -/
 open Lean Aqua
 
@@ -36,6 +37,7 @@ def dispatch (j : Json) : Json :=
   | "c18_exec" => opC18Exec j
   | "ref" => opRef j
   | "wf" => opWf j
+  | "beautify" => opBeautify j
   | "ping" => Json.mkObj [("pong", true)]
   | op => Json.mkObj [("error", s!"unknown op {op}")]
 
